@@ -1,7 +1,8 @@
 import FiberModel.C01.Sim
 /-
 C01 — helper lemmas, part C: what `register`/`addRoute` build (`build`) corresponds to the list of
-registrations (`Corr`), and the stack-level scan `linS` equals the specification `linearFrom`.
+registrations (`CorrI`, with the ghost registration indices), and the scan of the method stacks by
+registration index (`linM`) equals the specification `linearFrom`.
 -/
 set_option linter.unusedSimpArgs false
 set_option linter.unusedVariables false
@@ -15,120 +16,85 @@ structure WFReg (g : Reg α) : Prop where
   hne : g.handlers ≠ []
   noseam : ∀ h ∈ g.handlers, h.seam = false
 
-/-- `rs` is what `addRoute` makes of the registrations `gs` that list method `m` -/
-inductive Corr (m : Nat) : List (Route α) → List (Reg α) → Prop
-  | nil : Corr m [] []
-  | skip {rs gs g} : m ∉ g.methods → Corr m rs gs → Corr m rs (g :: gs)
-  | one {r rs g gs} : m ∈ g.methods → r.raw = g.raw → r.use = g.use → r.m = m →
-      r.handlers = g.handlers → Corr m rs gs → Corr m (r :: rs) (g :: gs)
-  | merged {r r' rs g gs} : m ∈ g.methods → r.raw = g.raw → r.use = g.use → r.m = m →
+/-- `rs` is what `addRoute` makes of the registrations `gs` (numbered from `b`) that list method `m` -/
+inductive CorrI (m : Nat) : Nat → List (Route α) → List (Reg α) → Prop
+  | nil {b} : CorrI m b [] []
+  | skip {b rs gs g} : m ∉ g.methods → CorrI m (b + 1) rs gs → CorrI m b rs (g :: gs)
+  | one {b r rs g gs} : m ∈ g.methods → r.raw = g.raw → r.use = g.use → r.m = m →
+      r.handlers = g.handlers → r.eo = g.eo → r.first = b → r.last = b →
+      CorrI m (b + 1) rs gs → CorrI m b (r :: rs) (g :: gs)
+  | merged {b r r' rs g gs} : m ∈ g.methods → r.raw = g.raw → r.use = g.use → r.m = m →
       r'.raw = g.raw → r'.use = g.use → r'.m = m →
-      r.handlers = g.handlers ++ markSeam r'.handlers → Corr m (r' :: rs) gs → Corr m (r :: rs) (g :: gs)
+      r.handlers = g.handlers ++ markSeam r'.handlers → r.eo = g.eo → r'.eo = g.eo →
+      r.first = b → r.last = r'.last →
+      CorrI m (b + 1) (r' :: rs) gs → CorrI m b (r :: rs) (g :: gs)
+
+theorem corrI_bounds {m b : Nat} {rs : List (Route α)} {gs : List (Reg α)} (hc : CorrI m b rs gs) :
+    ∀ x ∈ rs, b ≤ x.first ∧ x.first ≤ x.last := by
+  induction hc with
+  | nil => intro x hx; cases hx
+  | skip _ _ ih => intro x hx; have := ih x hx; omega
+  | one _ _ _ _ _ _ hf hl _ ih =>
+    intro x hx
+    rcases List.mem_cons.mp hx with rfl | hx'
+    · omega
+    · have := ih x hx'; omega
+  | merged _ _ _ _ _ _ _ _ _ _ hf hl _ ih =>
+    intro x hx
+    rcases List.mem_cons.mp hx with rfl | hx'
+    · have := ih _ List.mem_cons_self; omega
+    · have := ih x (List.mem_cons_of_mem _ hx'); omega
 
 /-! ### chains -/
 
-theorem chainS_spec (E : Env π α) (r : Route α) (m : Nat) (hs : List (Handler α))
-    (hns : ∀ h ∈ hs, h.seam = false) (p : π) (tr : List Nat) (e : ChainEnd π)
-    (h : chainS E r m hs p = .ok (tr, e)) : specChain E hs m p = (tr, e) := by
-  induction hs generalizing p tr e with
+theorem chainM_spec (E : Env π α) (S : Stacks α) (r : Route α) (hs : List (Handler α))
+    (hns : ∀ h ∈ hs, h.seam = false) (m : Nat) (p : π) (tr : List Nat) (e : ChainEnd π)
+    (h : chainM E S r hs m p = .ok (tr, e)) : specChain E hs m p = (tr, e) := by
+  induction hs generalizing m p tr e with
   | nil =>
-    simp only [chainS, Except.ok.injEq, Prod.mk.injEq] at h
+    simp only [chainM, Except.ok.injEq, Prod.mk.injEq] at h
     obtain ⟨rfl, rfl⟩ := h
     rfl
   | cons h0 hs ih =>
     have hs0 : h0.seam = false := hns h0 List.mem_cons_self
     have hns' : ∀ h ∈ hs, h.seam = false := fun h hh => hns h (List.mem_cons_of_mem _ hh)
-    simp only [chainS, hs0, Bool.false_and, Bool.false_eq_true, ↓reduceIte] at h
+    simp only [chainM, hs0, Bool.false_and, Bool.false_eq_true, ↓reduceIte] at h
     simp only [specChain]
     cases hsc : h0.script with
     | stop => simp [hsc] at h; obtain ⟨rfl, rfl⟩ := h; rfl
     | fail c => simp [hsc] at h; obtain ⟨rfl, rfl⟩ := h; rfl
     | next =>
       simp only [hsc] at h
-      cases hr : chainS E r m hs p with
-      | error e' => simp [hr, Except.map] at h
-      | ok x =>
-        obtain ⟨tr1, e1⟩ := x
-        simp only [hr, Except.map, Except.ok.injEq, Prod.mk.injEq] at h
-        obtain ⟨rfl, rfl⟩ := h
-        simp [ih hns' p tr1 e1 hr]
+      obtain ⟨⟨tr1, e1⟩, hr, heq⟩ := map_ok_inv h
+      simp only [Prod.mk.injEq] at heq
+      obtain ⟨rfl, rfl⟩ := heq
+      simp [ih hns' m p tr1 e1 hr]
     | setPath o =>
       simp only [hsc] at h
-      cases hr : chainS E r m hs ((E.setp p o).getD p) with
-      | error e' => simp [hr, Except.map] at h
-      | ok x =>
-        obtain ⟨tr1, e1⟩ := x
-        simp only [hr, Except.map, Except.ok.injEq, Prod.mk.injEq] at h
-        obtain ⟨rfl, rfl⟩ := h
-        simp [ih hns' _ tr1 e1 hr]
+      obtain ⟨⟨tr1, e1⟩, hr, heq⟩ := map_ok_inv h
+      simp only [Prod.mk.injEq] at heq
+      obtain ⟨rfl, rfl⟩ := heq
+      simp [ih hns' m _ tr1 e1 hr]
     | setMethod m2 =>
       simp only [hsc] at h
-      by_cases hm : m2 = m
-      · subst hm
-        simp only [bne_self_eq_false, Bool.false_eq_true, ↓reduceIte] at h
-        cases hr : chainS E r m2 hs p with
-        | error e' => simp [hr, Except.map] at h
-        | ok x =>
-          obtain ⟨tr1, e1⟩ := x
-          simp only [hr, Except.map, Except.ok.injEq, Prod.mk.injEq] at h
-          obtain ⟨rfl, rfl⟩ := h
-          simp [ih hns' _ tr1 e1 hr]
-      · have : (m2 != m) = true := by simpa using hm
-        simp [this] at h
-
-theorem chainS_fall_method (E : Env π α) (r : Route α) (m : Nat) (hs : List (Handler α)) (p : π)
-    (tr : List Nat) (m' : Nat) (p' : π) (c' : Nat)
-    (hch : chainS E r m hs p = .ok (tr, .fall m' p' c')) : m' = m := by
-  induction hs generalizing p tr with
-  | nil => simp [chainS] at hch; exact hch.2.1.symm
-  | cons h0 hs ihh =>
-    simp only [chainS] at hch
-    split at hch
-    · cases hch
-    · cases hsc : h0.script with
-      | stop => simp [hsc] at hch
-      | fail c => simp [hsc] at hch
-      | next =>
-        simp only [hsc] at hch
-        cases hr : chainS E r m hs p with
-        | error e' => simp [hr, Except.map] at hch
-        | ok x =>
-          obtain ⟨tr1, e1⟩ := x
-          simp only [hr, Except.map, Except.ok.injEq, Prod.mk.injEq] at hch
-          obtain ⟨_, rfl⟩ := hch
-          exact ihh p tr1 hr
-      | setPath o =>
-        simp only [hsc] at hch
-        cases hr : chainS E r m hs ((E.setp p o).getD p) with
-        | error e' => simp [hr, Except.map] at hch
-        | ok x =>
-          obtain ⟨tr1, e1⟩ := x
-          simp only [hr, Except.map, Except.ok.injEq, Prod.mk.injEq] at hch
-          obtain ⟨_, rfl⟩ := hch
-          exact ihh _ tr1 hr
-      | setMethod m2 =>
-        simp only [hsc] at hch
-        split at hch
-        · cases hch
-        · cases hr : chainS E r m hs p with
-          | error e' => simp [hr, Except.map] at hch
-          | ok x =>
-            obtain ⟨tr1, e1⟩ := x
-            simp only [hr, Except.map, Except.ok.injEq, Prod.mk.injEq] at hch
-            obtain ⟨_, rfl⟩ := hch
-            exact ihh _ tr1 hr
+      split at h
+      · cases h
+      · obtain ⟨⟨tr1, e1⟩, hr, heq⟩ := map_ok_inv h
+        simp only [Prod.mk.injEq] at heq
+        obtain ⟨rfl, rfl⟩ := heq
+        simp [ih hns' m2 p tr1 e1 hr]
 
 /-- running `hs₁ ++ hs₂`: first `hs₁`, and when all of them called `Next`, `hs₂` -/
-def thenChain (E : Env π α) (r : Route α) (m : Nat) (hs2 : List (Handler α)) :
+def thenChainM (E : Env π α) (S : Stacks α) (r : Route α) (hs2 : List (Handler α)) :
     Except Known (List Nat × ChainEnd π) → Except Known (List Nat × ChainEnd π)
   | .error e => .error e
-  | .ok (tr, .fall _ p' _) => (chainS E r m hs2 p').map fun x => (tr ++ x.1, x.2)
+  | .ok (tr, .fall m' p' _) => (chainM E S r hs2 m' p').map fun x => (tr ++ x.1, x.2)
   | .ok (tr, e) => .ok (tr, e)
 
-theorem thenChain_map (E : Env π α) (r : Route α) (m : Nat) (hs2 : List (Handler α)) (h : Nat)
+theorem thenChainM_map (E : Env π α) (S : Stacks α) (r : Route α) (hs2 : List (Handler α)) (h : Nat)
     (x : Except Known (List Nat × ChainEnd π)) :
-    thenChain E r m hs2 (x.map fun y => (h :: y.1, y.2)) =
-      (thenChain E r m hs2 x).map fun y => (h :: y.1, y.2) := by
+    thenChainM E S r hs2 (x.map fun y => (h :: y.1, y.2)) =
+      (thenChainM E S r hs2 x).map fun y => (h :: y.1, y.2) := by
   cases x with
   | error e => rfl
   | ok y =>
@@ -137,87 +103,62 @@ theorem thenChain_map (E : Env π α) (r : Route α) (m : Nat) (hs2 : List (Hand
     | stop => rfl
     | fail c => rfl
     | fall m' p' c' =>
-      simp only [Except.map, thenChain]
-      cases chainS E r m hs2 p' <;> simp [Except.map]
+      simp only [Except.map, thenChainM]
+      cases chainM E S r hs2 m' p' <;> simp [Except.map]
 
-theorem chainS_append (E : Env π α) (r : Route α) (m : Nat) (hs1 hs2 : List (Handler α)) (p : π) :
-    chainS E r m (hs1 ++ hs2) p = thenChain E r m hs2 (chainS E r m hs1 p) := by
-  induction hs1 generalizing p with
+theorem chainM_append (E : Env π α) (S : Stacks α) (r : Route α) (hs1 hs2 : List (Handler α)) (m : Nat) (p : π) :
+    chainM E S r (hs1 ++ hs2) m p = thenChainM E S r hs2 (chainM E S r hs1 m p) := by
+  induction hs1 generalizing m p with
   | nil =>
-    simp only [List.nil_append, chainS, thenChain]
-    cases chainS E r m hs2 p with
+    simp only [List.nil_append, chainM, thenChainM]
+    cases chainM E S r hs2 m p with
     | error e => rfl
     | ok x => simp [Except.map]
   | cons h0 hs ih =>
-    simp only [List.cons_append, chainS]
+    simp only [List.cons_append, chainM]
     split
     · rfl
     · cases hsc : h0.script with
       | stop => rfl
       | fail c => rfl
-      | next => simp only; rw [ih, thenChain_map]
-      | setPath o => simp only; rw [ih, thenChain_map]
+      | next => simp only; rw [ih, thenChainM_map]
+      | setPath o => simp only; rw [ih, thenChainM_map]
       | setMethod m2 =>
         simp only
         split
         · rfl
-        · rw [ih, thenChain_map]
+        · rw [ih, thenChainM_map]
 
-theorem chainS_congr (E : Env π α) (r r' : Route α) (m : Nat) (hm : r.m = r'.m) (hraw : r.raw = r'.raw)
-    (huse : r.use = r'.use) (hs : List (Handler α)) (p : π) : chainS E r m hs p = chainS E r' m hs p := by
-  induction hs generalizing p with
+theorem chainM_congr (E : Env π α) (S : Stacks α) (r r' : Route α) (hm : r.m = r'.m) (hraw : r.raw = r'.raw)
+    (huse : r.use = r'.use) (hlast : r.last = r'.last) (hs : List (Handler α)) (m : Nat) (p : π) :
+    chainM E S r hs m p = chainM E S r' hs m p := by
+  induction hs generalizing m p with
   | nil => rfl
   | cons h0 hs ih =>
     have hmt : ∀ q, r.matches E q = r'.matches E q := by intro q; simp [Route.matches, hraw, huse]
-    simp only [chainS, hm, hmt]
+    simp only [chainM, hm, hmt, hlast]
     split
     · rfl
     · split <;> simp only [ih]
 
-theorem chainS_markSeam (E : Env π α) (r : Route α) (m : Nat) (h0 : Handler α) (t : List (Handler α)) (p : π)
-    (hs0 : h0.seam = false) :
-    chainS E r m (markSeam (h0 :: t)) p =
-      if m == r.m && r.matches E p then chainS E r m (h0 :: t) p else .error .k2 := by
-  simp only [markSeam, chainS, hs0, Bool.true_and, Bool.false_and, Bool.false_eq_true, ↓reduceIte]
+theorem chainM_markSeam (E : Env π α) (S : Stacks α) (r : Route α) (m : Nat) (h0 : Handler α)
+    (t : List (Handler α)) (p : π) (hs0 : h0.seam = false) :
+    chainM E S r (markSeam (h0 :: t)) m p =
+      if m == r.m && r.matches E p then chainM E S r (h0 :: t) m p else .error .k2 := by
+  simp only [markSeam, chainM, hs0, Bool.true_and, Bool.false_and, Bool.false_eq_true, ↓reduceIte]
   cases hc : (m == r.m && r.matches E p) <;> simp
 
-theorem afterChain_map (k : Nat → π → Nat → Except Known Obs) (tr : List Nat)
-    (x : Except Known (List Nat × ChainEnd π)) :
-    afterChain k (x.map fun y => (tr ++ y.1, y.2)) = (afterChain k x).map (Obs.prepend tr) := by
-  cases x with
-  | error e => rfl
-  | ok y =>
-    obtain ⟨t, e⟩ := y
-    cases e with
-    | stop => simp [Except.map, afterChain, Obs.prepend]
-    | fail c => simp [Except.map, afterChain, Obs.prepend]
-    | fall m' p' c' =>
-      simp only [Except.map, afterChain]
-      cases k m' p' c' <;> simp [Except.map, Obs.prepend, List.append_assoc]
+/-! ### one route of the stack against the registrations -/
 
-/-! ### Corr ⟹ linS = linearFrom -/
+/-- what the specification does after a chain that ended with `e` -/
+def afterSpec (E : Env π α) (all rest : List (Reg α)) (matched : Bool) (tr : List Nat) : ChainEnd π → Obs
+  | .stop => { trace := tr, fin := .stop }
+  | .fail c => { trace := tr, fin := .fail c }
+  | .fall m' p' _ => (linearFrom E all rest m' p' matched).prepend tr
 
-theorem corr_head (m : Nat) {r : Route α} {rs : List (Route α)} {gs : List (Reg α)}
-    (hc : Corr m (r :: rs) gs) (hwf : ∀ g ∈ gs, WFReg g) :
-    ∃ h t, r.handlers = h :: t ∧ h.seam = false := by
-  generalize hrs : r :: rs = l at hc
-  induction hc generalizing r rs with
-  | nil => cases hrs
-  | skip _ _ ih => exact ih (fun g hg => hwf g (List.mem_cons_of_mem _ hg)) hrs
-  | @one r1 rs1 g gs1 hm hraw huse hrm hh _ _ =>
-    simp only [List.cons.injEq] at hrs
-    obtain ⟨rfl, rfl⟩ := hrs
-    have w := hwf g List.mem_cons_self
-    cases hg : g.handlers with
-    | nil => exact absurd hg w.hne
-    | cons h t => exact ⟨h, t, by rw [hh, hg], w.noseam h (by rw [hg]; exact List.mem_cons_self)⟩
-  | @merged r1 r2 rs1 g gs1 hm hraw huse hrm _ _ _ hh _ _ =>
-    simp only [List.cons.injEq] at hrs
-    obtain ⟨rfl, rfl⟩ := hrs
-    have w := hwf g List.mem_cons_self
-    cases hg : g.handlers with
-    | nil => exact absurd hg w.hne
-    | cons h t => exact ⟨h, t ++ markSeam r2.handlers, by rw [hh, hg]; rfl, w.noseam h (by rw [hg]; exact List.mem_cons_self)⟩
+theorem afterSpec_prepend (E : Env π α) (all rest : List (Reg α)) (matched : Bool) (t1 t2 : List Nat)
+    (e : ChainEnd π) : (afterSpec E all rest matched t2 e).prepend t1 = afterSpec E all rest matched (t1 ++ t2) e := by
+  cases e <;> simp [afterSpec, Obs.prepend, List.append_assoc]
 
 theorem contains_eq_true_of_mem {l : List Nat} {m : Nat} (h : m ∈ l) : l.contains m = true := by
   simpa using h
@@ -225,107 +166,321 @@ theorem contains_eq_true_of_mem {l : List Nat} {m : Nat} (h : m ∈ l) : l.conta
 theorem contains_eq_false_of_not_mem {l : List Nat} {m : Nat} (h : m ∉ l) : l.contains m = false := by
   simpa using h
 
-theorem linS_linear (E : Env π α) (all : List (Reg α)) (m : Nat) (fin : π → Bool → End)
-    (hfin : ∀ p matched, fin p matched = specEnding E all m p matched)
-    {rs : List (Route α)} {gs : List (Reg α)} (hc : Corr m rs gs) (hwf : ∀ g ∈ gs, WFReg g) :
-    ∀ (p : π) (matched : Bool) (o : Obs),
-      linS E fin m rs p matched = .ok o → linearFrom E all gs m p matched = o := by
+theorem corrI_head (m : Nat) {b : Nat} {r : Route α} {rs : List (Route α)} {gs : List (Reg α)}
+    (hc : CorrI m b (r :: rs) gs) (hwf : ∀ g ∈ gs, WFReg g) :
+    ∃ h t, r.handlers = h :: t ∧ h.seam = false := by
+  generalize hrs : r :: rs = l at hc
+  induction hc generalizing r rs with
+  | nil => cases hrs
+  | skip _ _ ih => exact ih (fun g hg => hwf g (List.mem_cons_of_mem _ hg)) hrs
+  | @one b r1 rs1 g gs1 hm hraw huse hrm hh _ _ _ _ _ =>
+    simp only [List.cons.injEq] at hrs
+    obtain ⟨rfl, rfl⟩ := hrs
+    have w := hwf g List.mem_cons_self
+    cases hg : g.handlers with
+    | nil => exact absurd hg w.hne
+    | cons h t => exact ⟨h, t, by rw [hh, hg], w.noseam h (by rw [hg]; exact List.mem_cons_self)⟩
+  | @merged b r1 r2 rs1 g gs1 hm hraw huse hrm _ _ _ hh _ _ _ _ _ _ =>
+    simp only [List.cons.injEq] at hrs
+    obtain ⟨rfl, rfl⟩ := hrs
+    have w := hwf g List.mem_cons_self
+    cases hg : g.handlers with
+    | nil => exact absurd hg w.hne
+    | cons h t => exact ⟨h, t ++ markSeam r2.handlers, by rw [hh, hg]; rfl, w.noseam h (by rw [hg]; exact List.mem_cons_self)⟩
+
+/-- no route of the (remaining) stack matches: the specification reaches its end as well -/
+theorem corrI_none (E : Env π α) (all : List (Reg α)) (m : Nat) {b : Nat} {rs : List (Route α)}
+    {gs : List (Reg α)} (hc : CorrI m b rs gs) (p : π) (matched : Bool)
+    (h : rs.find? (fun r => r.matches E p) = none) :
+    linearFrom E all gs m p matched = { trace := [], fin := specEnding E all m p matched } := by
   induction hc with
-  | nil =>
-    intro p matched o h
-    simp only [linS, Except.ok.injEq] at h
-    subst h
-    simp [linearFrom, hfin]
-  | @skip rs gs g hm _ ih =>
-    intro p matched o h
+  | nil => rfl
+  | skip hm _ ih =>
     simp only [linearFrom, contains_eq_false_of_not_mem hm, Bool.false_and, Bool.false_eq_true, ↓reduceIte]
-    exact ih (fun g hg => hwf g (List.mem_cons_of_mem _ hg)) p matched o h
-  | @one r rs g gs hm hraw huse hrm hh _ ih =>
-    intro p matched o h
+    exact ih h
+  | @one b r rs g gs hm hraw huse hrm hh _ _ _ _ ih =>
+    have hmatch : r.matches E p = g.matches E p := by simp [Route.matches, Reg.matches, hraw, huse]
+    simp only [List.find?_cons] at h
+    cases hr : r.matches E p with
+    | true => simp [hr] at h
+    | false =>
+      simp only [hr] at h
+      simp only [linearFrom, ← hmatch, hr, Bool.and_false, Bool.false_eq_true, ↓reduceIte]
+      exact ih h
+  | @merged b r r' rs g gs hm hraw huse hrm hraw' huse' hrm' hh _ _ _ _ _ ih =>
+    have hmatch : r.matches E p = g.matches E p := by simp [Route.matches, Reg.matches, hraw, huse]
+    have hmatch' : r'.matches E p = g.matches E p := by simp [Route.matches, Reg.matches, hraw', huse']
+    simp only [List.find?_cons] at h
+    cases hr : r.matches E p with
+    | true => simp [hr] at h
+    | false =>
+      simp only [hr] at h
+      simp only [linearFrom, ← hmatch, hr, Bool.and_false, Bool.false_eq_true, ↓reduceIte]
+      apply ih
+      simp only [List.find?_cons, hmatch', ← hmatch, hr]
+      exact h
+
+/-- the first matching route of the (remaining) stack and its handlers against the registrations -/
+theorem corrI_some (E : Env π α) (S : Stacks α) (all : List (Reg α)) (m : Nat) {b : Nat}
+    {rs : List (Route α)} {gs : List (Reg α)} (hc : CorrI m b rs gs) (hwf : ∀ g ∈ gs, WFReg g) :
+    ∀ (p : π) (matched : Bool) (r : Route α) (tr : List Nat) (e : ChainEnd π),
+      rs.find? (fun r => r.matches E p) = some r →
+      chainM E S r r.handlers m p = .ok (tr, e) →
+      linearFrom E all gs m p matched =
+        afterSpec E all (gs.drop (r.last + 1 - b)) (matched || !r.use) tr e := by
+  induction hc with
+  | nil => intro p matched r tr e h; simp at h
+  | @skip b rs gs g hm hc' ih =>
+    intro p matched r tr e h hch
+    have hwf' : ∀ g ∈ gs, WFReg g := fun g hg => hwf g (List.mem_cons_of_mem _ hg)
+    have hrmem : r ∈ rs := List.mem_of_find?_eq_some h
+    have hb := corrI_bounds hc' r hrmem
+    simp only [linearFrom, contains_eq_false_of_not_mem hm, Bool.false_and, Bool.false_eq_true, ↓reduceIte]
+    rw [ih hwf' p matched r tr e h hch]
+    have : r.last + 1 - b = (r.last + 1 - (b + 1)) + 1 := by omega
+    rw [this, List.drop_succ_cons]
+  | @one b r0 rs g gs hm hraw huse hrm hh _ hfirst hlast hc' ih =>
+    intro p matched r tr e h hch
     have hwf' : ∀ g ∈ gs, WFReg g := fun g hg => hwf g (List.mem_cons_of_mem _ hg)
     have w := hwf g List.mem_cons_self
-    have hmatch : r.matches E p = g.matches E p := by simp [Route.matches, Reg.matches, hraw, huse]
-    simp only [linearFrom, contains_eq_true_of_mem hm, Bool.true_and]
-    simp only [linS, hmatch] at h
-    by_cases hg : g.matches E p = true
-    · simp only [hg, ↓reduceIte] at h ⊢
-      rw [hh] at h
-      cases hch : chainS E r m g.handlers p with
+    have hmatch : r0.matches E p = g.matches E p := by simp [Route.matches, Reg.matches, hraw, huse]
+    simp only [List.find?_cons] at h
+    cases hr : r0.matches E p with
+    | true =>
+      simp only [hr, Option.some.injEq] at h
+      subst h
+      rw [hh] at hch
+      have hspec := chainM_spec E S r0 g.handlers w.noseam m p tr e hch
+      have hd : r0.last + 1 - b = 1 := by omega
+      simp only [linearFrom, contains_eq_true_of_mem hm, ← hmatch, hr, Bool.and_self, ↓reduceIte, hspec, hd,
+        List.drop_succ_cons, List.drop_zero, huse]
+      cases e <;> rfl
+    | false =>
+      simp only [hr] at h
+      have hrmem : r ∈ rs := List.mem_of_find?_eq_some h
+      have hb := corrI_bounds hc' r hrmem
+      simp only [linearFrom, ← hmatch, hr, Bool.and_false, Bool.false_eq_true, ↓reduceIte]
+      rw [ih hwf' p matched r tr e h hch]
+      have : r.last + 1 - b = (r.last + 1 - (b + 1)) + 1 := by omega
+      rw [this, List.drop_succ_cons]
+  | @merged b r0 r' rs g gs hm hraw huse hrm hraw' huse' hrm' hh _ _ hfirst hlast hc' ih =>
+    intro p matched r tr e h hch
+    have hwf' : ∀ g ∈ gs, WFReg g := fun g hg => hwf g (List.mem_cons_of_mem _ hg)
+    have w := hwf g List.mem_cons_self
+    have hmatch : ∀ q, r0.matches E q = g.matches E q := by intro q; simp [Route.matches, Reg.matches, hraw, huse]
+    have hmatch' : ∀ q, r'.matches E q = g.matches E q := by intro q; simp [Route.matches, Reg.matches, hraw', huse']
+    have hb' := corrI_bounds hc' r' List.mem_cons_self
+    simp only [List.find?_cons] at h
+    cases hr : r0.matches E p with
+    | true =>
+      simp only [hr, Option.some.injEq] at h
+      subst h
+      rw [hh, chainM_append] at hch
+      cases hc1 : chainM E S r0 g.handlers m p with
+      | error e1 => simp [hc1, thenChainM] at hch
+      | ok x =>
+        obtain ⟨tr1, e1⟩ := x
+        have hspec := chainM_spec E S r0 g.handlers w.noseam m p tr1 e1 hc1
+        rw [hc1] at hch
+        have hd : r0.last + 1 - b = (r'.last + 1 - (b + 1)) + 1 := by omega
+        simp only [linearFrom, contains_eq_true_of_mem hm, ← hmatch, hr, Bool.and_self, ↓reduceIte, hspec]
+        cases e1 with
+        | stop =>
+          simp only [thenChainM, Except.ok.injEq, Prod.mk.injEq] at hch
+          obtain ⟨rfl, rfl⟩ := hch
+          rfl
+        | fail c =>
+          simp only [thenChainM, Except.ok.injEq, Prod.mk.injEq] at hch
+          obtain ⟨rfl, rfl⟩ := hch
+          rfl
+        | fall m1 p1 c1 =>
+          simp only [thenChainM] at hch
+          obtain ⟨h0, t, hr't, hseam0⟩ := corrI_head m hc' hwf'
+          rw [hr't, chainM_markSeam E S r0 m1 h0 t p1 hseam0] at hch
+          by_cases hck : (m1 == r0.m && r0.matches E p1) = true
+          · simp only [hck, ↓reduceIte] at hch
+            obtain ⟨⟨tr2, e2⟩, hr2, heq⟩ := map_ok_inv hch
+            simp only [Prod.mk.injEq] at heq
+            obtain ⟨rfl, rfl⟩ := heq
+            simp only [Bool.and_eq_true, beq_iff_eq] at hck
+            have hm1 : m1 = m := by rw [hck.1, hrm]
+            subst hm1
+            have hr'p : r'.matches E p1 = true := by rw [hmatch', ← hmatch]; exact hck.2
+            have hfind : (r' :: rs).find? (fun r => r.matches E p1) = some r' := by
+              simp [List.find?_cons, hr'p]
+            have hch' : chainM E S r' r'.handlers m1 p1 = .ok (tr2, e2) := by
+              rw [hr't, ← chainM_congr E S r0 r' (by rw [hrm, hrm']) (by rw [hraw, hraw']) (by rw [huse, huse']) hlast]
+              exact hr2
+            have := ih hwf' p1 (matched || !g.use) r' tr2 e2 hfind hch'
+            show Obs.prepend tr1 (linearFrom E all gs m1 p1 (matched || !g.use)) = _
+            rw [this, afterSpec_prepend, hd, List.drop_succ_cons]
+            have hflag : (matched || !g.use || !r'.use) = (matched || !r0.use) := by
+              rw [huse', huse]; cases matched <;> cases g.use <;> rfl
+            rw [hflag]
+          · have hck' : (m1 == r0.m && r0.matches E p1) = false := by simpa using hck
+            simp [hck', Except.map] at hch
+    | false =>
+      simp only [hr] at h
+      have hrmem : r ∈ rs := List.mem_of_find?_eq_some h
+      have hb := corrI_bounds hc' r (List.mem_cons_of_mem _ hrmem)
+      have hr' : r'.matches E p = false := by rw [hmatch', ← hmatch]; exact hr
+      simp only [linearFrom, ← hmatch, hr, Bool.and_false, Bool.false_eq_true, ↓reduceIte]
+      have hfind : (r' :: rs).find? (fun r => r.matches E p) = some r := by
+        simp only [List.find?_cons, hr']; exact h
+      rw [ih hwf' p matched r tr e hfind hch]
+      have : r.last + 1 - b = (r.last + 1 - (b + 1)) + 1 := by omega
+      rw [this, List.drop_succ_cons]
+
+/-! ### splitting a stack at a registration index -/
+
+/-- no route was created before registration `k` and holds handlers of registration `k` or later -/
+def NoStraddle (st : List (Route α)) (k : Nat) : Prop := ∀ x ∈ st, ¬ (x.first < k ∧ k ≤ x.last)
+
+theorem corrI_split (m : Nat) {b : Nat} {rs : List (Route α)} {gs : List (Reg α)} (hc : CorrI m b rs gs)
+    (k : Nat) (hk : b ≤ k) (hns : NoStraddle rs k) :
+    CorrI m k (rs.filter (fun x => k ≤ x.first)) (gs.drop (k - b)) := by
+  induction hc with
+  | @nil b => simpa using CorrI.nil
+  | @skip b rs gs g hm hc' ih =>
+    by_cases hkb : k = b
+    · subst hkb
+      have hall : rs.filter (fun x => k ≤ x.first) = rs := by
+        rw [List.filter_eq_self]; intro x hx; have := corrI_bounds hc' x hx; simp; omega
+      simp only [Nat.sub_self, List.drop_zero, hall]
+      exact CorrI.skip hm hc'
+    · have : k - b = (k - (b + 1)) + 1 := by omega
+      rw [this, List.drop_succ_cons]
+      exact ih (by omega) hns
+  | @one b r rs g gs hm hraw huse hrm hh heo hfirst hlast hc' ih =>
+    have hns' : NoStraddle rs k := fun x hx => hns x (List.mem_cons_of_mem _ hx)
+    by_cases hkb : k = b
+    · subst hkb
+      have hall : rs.filter (fun x => k ≤ x.first) = rs := by
+        rw [List.filter_eq_self]; intro x hx; have := corrI_bounds hc' x hx; simp; omega
+      have hr : decide (k ≤ r.first) = true := by simp; omega
+      simp only [Nat.sub_self, List.drop_zero, List.filter_cons, hr, ↓reduceIte, hall]
+      exact CorrI.one hm hraw huse hrm hh heo hfirst hlast hc'
+    · have : k - b = (k - (b + 1)) + 1 := by omega
+      have hr : decide (k ≤ r.first) = false := by simp; omega
+      rw [this, List.drop_succ_cons]
+      simp only [List.filter_cons, hr, Bool.false_eq_true, ↓reduceIte]
+      exact ih (by omega) hns'
+  | @merged b r r' rs g gs hm hraw huse hrm hraw' huse' hrm' hh heo heo' hfirst hlast hc' ih =>
+    have hb' := corrI_bounds hc' r' List.mem_cons_self
+    by_cases hkb : k = b
+    · subst hkb
+      have hall : rs.filter (fun x => k ≤ x.first) = rs := by
+        rw [List.filter_eq_self]; intro x hx
+        have := corrI_bounds hc' x (List.mem_cons_of_mem _ hx); simp; omega
+      have hr : decide (k ≤ r.first) = true := by simp; omega
+      simp only [Nat.sub_self, List.drop_zero, List.filter_cons, hr, ↓reduceIte, hall]
+      exact CorrI.merged hm hraw huse hrm hraw' huse' hrm' hh heo heo' hfirst hlast hc'
+    · have : k - b = (k - (b + 1)) + 1 := by omega
+      have hr : decide (k ≤ r.first) = false := by simp; omega
+      -- r does not straddle k: all of its registrations are in front of k
+      have hrl : r.last < k := by
+        have := hns r List.mem_cons_self
+        omega
+      have hr' : decide (k ≤ r'.first) = false := by simp; omega
+      have hns' : NoStraddle (r' :: rs) k := by
+        intro x hx
+        rcases List.mem_cons.mp hx with rfl | hx'
+        · omega
+        · exact hns x (List.mem_cons_of_mem _ hx')
+      rw [this, List.drop_succ_cons]
+      simp only [List.filter_cons, hr, Bool.false_eq_true, ↓reduceIte]
+      have := ih (by omega) hns'
+      simpa only [List.filter_cons, hr', Bool.false_eq_true, ↓reduceIte] using this
+
+/-! ### linM = linearFrom -/
+
+theorem noStraddle_of_not_straddles (S : Stacks α) (m k : Nat) (h : straddles S m k = false) :
+    NoStraddle (S.stack m) (k + 1) := by
+  intro x hx hcon
+  unfold straddles at h
+  rw [List.any_eq_false] at h
+  have := h x hx
+  simp only [Bool.and_eq_true, decide_eq_true_eq, not_and] at this
+  omega
+
+theorem noStraddle_own {st : List (Route α)} (hf : FSorted st) {r : Route α} (hr : r ∈ st) :
+    NoStraddle st (r.last + 1) := by
+  intro x hx hcon
+  induction st with
+  | nil => cases hr
+  | cons a t ih =>
+    have hq := List.pairwise_cons.mp hf.1
+    rcases List.mem_cons.mp hr with e1 | hr' <;> rcases List.mem_cons.mp hx with e2 | hx'
+    · rw [e1, e2] at hcon; omega
+    · have h2 := hq.1 x hx'; rw [e1] at hcon; omega
+    · have h2 := hq.1 r hr'
+      have h3 := hf.2 r (List.mem_cons_of_mem _ hr'); have h4 := hf.2 a List.mem_cons_self
+      rw [e2] at hcon; omega
+    · exact ih hf.tail hr' hx'
+
+/-- **The scan of the stacks by registration index is the specification.** `hcorr`: every stack
+corresponds to the registrations; `hmono`: positions grow with the registration index across stacks
+(this bounds the number of steps by `routesCount`). -/
+theorem linM_linear (E : Env π α) (S : Stacks α) (regs : List (Reg α))
+    (fin : Nat → π → Bool → End) (hfin : ∀ m p matched, fin m p matched = specEnding E regs m p matched)
+    (hwf : ∀ g ∈ regs, WFReg g)
+    (hcorr : ∀ i, CorrI i 0 (S.stack i) regs)
+    (hf : ∀ i, FSorted (S.stack i))
+    (hbound : ∀ i, ∀ x ∈ S.stack i, x.pos ≤ S.count)
+    (hmono : ∀ i j, ∀ x ∈ S.stack i, ∀ y ∈ S.stack j, x.first < y.first → x.pos < y.pos) :
+    ∀ (fuel k q m : Nat) (p : π) (matched : Bool) (o : Obs),
+      NoStraddle (S.stack m) k →
+      (∀ i, ∀ x ∈ S.stack i, k ≤ x.first → q < x.pos) →
+      S.count - q < fuel →
+      linM E S fin fuel k m p matched = .ok o →
+      linearFrom E regs (regs.drop k) m p matched = o := by
+  intro fuel
+  induction fuel with
+  | zero => intro k q m p matched o _ _ hlen; omega
+  | succ fuel ih =>
+    intro k q m p matched o hns hq hlen h
+    simp only [linM] at h
+    have hsplit := corrI_split m (hcorr m) k (Nat.zero_le k) hns
+    simp only [Nat.sub_zero] at hsplit
+    have hwfd : ∀ g ∈ regs.drop k, WFReg g := fun g hg => hwf g (List.mem_of_mem_drop hg)
+    cases hfind : ((S.stack m).filter (fun x => k ≤ x.first)).find? (fun r => r.matches E p) with
+    | none =>
+      simp only [hfind, Except.ok.injEq] at h
+      subst h
+      rw [corrI_none E regs m hsplit p matched hfind, hfin]
+    | some r =>
+      simp only [hfind] at h
+      have hrf := List.mem_of_find?_eq_some hfind
+      have hrst : r ∈ S.stack m := (List.mem_filter.mp hrf).1
+      have hkr : k ≤ r.first := by simpa using (List.mem_filter.mp hrf).2
+      have hrl : r.first ≤ r.last := (hf m).2 r hrst
+      cases hch : chainM E S r r.handlers m p with
       | error e => simp [hch, afterChain] at h
       | ok x =>
         obtain ⟨tr, e⟩ := x
-        rw [chainS_spec E r m g.handlers w.noseam p tr e hch]
         rw [hch] at h
+        have hstep := corrI_some E S regs m hsplit hwfd p matched r tr e hfind hch
+        have hdrop : (regs.drop k).drop (r.last + 1 - k) = regs.drop (r.last + 1) := by
+          rw [List.drop_drop]; congr 1; omega
+        rw [hdrop] at hstep
+        rw [hstep]
         cases e with
-        | stop => simp only [afterChain, Except.ok.injEq] at h; exact h
-        | fail c => simp only [afterChain, Except.ok.injEq] at h; exact h
+        | stop => simp only [afterChain, Except.ok.injEq] at h; subst h; rfl
+        | fail c => simp only [afterChain, Except.ok.injEq] at h; subst h; rfl
         | fall m' p' c' =>
           simp only [afterChain] at h
-          cases hl : linS E fin m rs p' (matched || !r.use) with
-          | error e => simp [hl, Except.map] at h
-          | ok o' =>
-            simp only [hl, Except.map, Except.ok.injEq] at h
-            subst h
-            have hm' : m' = m := chainS_fall_method E r m g.handlers p tr m' p' c' hch
-            subst hm'
-            rw [huse] at hl
-            simp only [ih hwf' p' _ o' hl]
-    · have hg' : g.matches E p = false := by simpa using hg
-      simp only [hg', Bool.false_eq_true, ↓reduceIte] at h ⊢
-      exact ih hwf' p matched o h
-  | @merged r r' rs g gs hm hraw huse hrm hraw' huse' hrm' hh hc' ih =>
-    intro p matched o h
-    have hwf' : ∀ g ∈ gs, WFReg g := fun g hg => hwf g (List.mem_cons_of_mem _ hg)
-    have w := hwf g List.mem_cons_self
-    have hmatch : ∀ q, r.matches E q = g.matches E q := by intro q; simp [Route.matches, Reg.matches, hraw, huse]
-    have hmatch' : ∀ q, r'.matches E q = g.matches E q := by intro q; simp [Route.matches, Reg.matches, hraw', huse']
-    simp only [linearFrom, contains_eq_true_of_mem hm, Bool.true_and]
-    simp only [linS, hmatch] at h
-    by_cases hg : g.matches E p = true
-    · simp only [hg, ↓reduceIte] at h ⊢
-      rw [hh, chainS_append] at h
-      cases hch : chainS E r m g.handlers p with
-      | error e => simp [hch, thenChain, afterChain] at h
-      | ok x =>
-        obtain ⟨tr, e⟩ := x
-        rw [chainS_spec E r m g.handlers w.noseam p tr e hch]
-        rw [hch] at h
-        cases e with
-        | stop => simp only [thenChain, afterChain, Except.ok.injEq] at h; exact h
-        | fail c => simp only [thenChain, afterChain, Except.ok.injEq] at h; exact h
-        | fall m' p' c' =>
-          simp only [thenChain] at h
-          obtain ⟨h0, t, hr't, hseam0⟩ := corr_head m hc' hwf'
-          rw [hr't, chainS_markSeam E r m h0 t p' hseam0] at h
-          by_cases hck : (m == r.m && r.matches E p') = true
-          · simp only [hck, ↓reduceIte] at h
-            rw [afterChain_map] at h
-            -- the continuation is the scan of `r' :: rs`
-            have hr'p : r'.matches E p' = true := by
-              rw [hmatch', ← hmatch]; simp only [Bool.and_eq_true] at hck; exact hck.2
-            have hcont : linS E fin m (r' :: rs) p' (matched || !g.use) =
-                afterChain (fun _ p'' _ => linS E fin m rs p'' (matched || !r.use)) (chainS E r m (h0 :: t) p') := by
-              simp only [linS, hr'p, ↓reduceIte]
-              rw [hr't, chainS_congr E r' r m (by rw [hrm, hrm']) (by rw [hraw, hraw']) (by rw [huse, huse'])]
-              congr 1
-              funext _ p'' _
-              rw [huse', huse]
-              cases matched <;> cases g.use <;> rfl
-            rw [← hcont] at h
-            cases hl : linS E fin m (r' :: rs) p' (matched || !g.use) with
-            | error e => simp [hl, Except.map] at h
-            | ok o' =>
-              simp only [hl, Except.map, Except.ok.injEq] at h
-              subst h
-              have hm' : m' = m := chainS_fall_method E r m g.handlers p tr m' p' c' hch
-              subst hm'
-              simp only [ih hwf' p' _ o' hl]
-          · have hck' : (m == r.m && r.matches E p') = false := by simpa using hck
-            simp [hck', Except.map, afterChain] at h
-    · have hg' : g.matches E p = false := by simpa using hg
-      simp only [hg', Bool.false_eq_true, ↓reduceIte] at h ⊢
-      apply ih hwf' p matched o
-      simp only [linS, hmatch', hg', Bool.false_eq_true, ↓reduceIte]
-      exact h
+          obtain ⟨o', ho', heq⟩ := map_ok_inv h
+          subst heq
+          have hns' : NoStraddle (S.stack m') (r.last + 1) := by
+            rcases chainM_fall E S r r.handlers m p tr m' p' c' hch with h1 | h1
+            · rw [h1]; exact noStraddle_own (hf m) hrst
+            · exact noStraddle_of_not_straddles S m' r.last h1
+          have hq' : ∀ i, ∀ x ∈ S.stack i, r.last + 1 ≤ x.first → r.pos < x.pos := by
+            intro i x hx hle
+            exact hmono m i r hrst x hx (by omega)
+          have hrq : q < r.pos := hq m r hrst hkr
+          have hrc : r.pos ≤ S.count := hbound m r hrst
+          have := ih (r.last + 1) r.pos m' p' (matched || !r.use) o' hns' hq' (by omega) ho'
+          simp only [afterSpec, this]
 
 end C01
